@@ -1,7 +1,154 @@
-import Gimli.Model.Eval
-namespace Gimli.Props.C07
-open Gimli
+import Gimli.Lemmas.Value
+import Gimli.Lemmas.OpTotal
+import Gimli.Lemmas.Capacity
+/-!
+# C07 — Expression decoding and evaluation equal the DWARF stack machine
 
-theorem stub : Value.maskBitSize 255 = 8 := by decide
+Property theorems only (helper lemmas: `Gimli/Lemmas/{Value,OpDecode,OpTotal,Eval,Capacity}.lean`).
+Every theorem is about the Model functions of `Gimli/Model/{Value,Op,Eval}.lean` — the functions the
+driver (`Gimli/Drv/C07.lean`) executes in the correspondence run against `src/read/{value,op,util}.rs`.
+The Spec side is `Gimli/Spec/{Expr,OpTable}.lean`.
+
+Quantifiers: every byte string, every encoding (address size / format / version / byte order),
+every value and mask of the stated shape, every fuel, every evaluator state, every script of
+resume answers.
+-/
+namespace Gimli.Props.C07
+open Gimli Gimli.Op Gimli.Eval Gimli.Value Gimli.Spec.Expr
+
+/-! ## (1) value arithmetic -/
+
+/-- **`value_refines`.** For every address size `a ∈ {1,2,4,8}` (mask `2^(8a)-1`), every binary
+`Value` operation other than the shifts and all integer operands (generic or typed, stored patterns
+arbitrary — generic operands may carry garbage above the address size): the Model result, read
+*modulo `2^(8a)`* for generic values and *exactly* for typed ones (`absV`), is the Spec result on the
+abstracted operands — including the error cases (`DivisionByZero` before `TypeMismatch`,
+`TypeMismatch`, …), which are equal as `Out` values. `WF y`: the stored pattern fits its Rust type. -/
+theorem value_refines (a : Nat) (ha : AddrSize a) (op : BinOp) (hop : ¬ IsShift op) (x y : Value)
+    (ix : IsInt x) (hy : WF y) :
+    (binaryOf op x y (maskOf a)).map (absV a) = binary a op (absV a x) (absV a y) :=
+  binary_refines a ha op x y ix hy (fun h => absurd h hop)
+
+/-- **Shifts** (`shl`, `shr`, `shra`): the same statement under the additional hypothesis that a
+*generic* shift count is stored without bits above the address size (`CountMasked`).
+PARTIAL: without that hypothesis the statement is false — `Value::shift_length` does not mask a
+generic count (finding C07-1, `shift_count_unmasked_counterexample` below). The full statement is
+`value_refines` with `hop` dropped. -/
+theorem value_refines_shift_partial (a : Nat) (ha : AddrSize a) (op : BinOp) (x y : Value)
+    (ix : IsInt x) (hy : WF y) (hc : CountMasked a y) :
+    (binaryOf op x y (maskOf a)).map (absV a) = binary a op (absV a x) (absV a y) :=
+  binary_refines a ha op x y ix hy (fun _ => hc)
+
+/-- the witness of finding C07-1 on a 4-byte target: `1 << Generic(2^32 + 2)`; the count is `2`
+modulo the address size, the Spec result is `4`, the Model (= `value.rs`) result is `0`. -/
+theorem shift_count_unmasked_counterexample :
+    (Value.shl ⟨.generic, 1⟩ ⟨.generic, 2 ^ 32 + 2⟩ (maskOf 4)).map (absV 4) = .ok ⟨.generic, 0⟩ ∧
+      binary 4 .shl (absV 4 ⟨.generic, 1⟩) (absV 4 ⟨.generic, 2 ^ 32 + 2⟩) = .ok ⟨.generic, 4⟩ := by
+  constructor <;> decide
+
+/-- **Unary operations** `abs`, `neg`, `not`: same refinement, same error cases
+(`neg` of an unsigned type is `UnsupportedTypeOperation`). -/
+theorem value_refines_unary (a : Nat) (ha : AddrSize a) (op : UnOp) (x : Value) (ix : IsInt x) (hx : WF x) :
+    (unaryOf op x (maskOf a)).map (absV a) = unary a op (absV a x) :=
+  unary_refines a ha op x ix hx
+
+/-- `sign_extend(value, mask)` is the two's complement reading of the low `8a` bits
+(the xor / subtract trick of `value.rs`, proved without `bv_decide`). -/
+theorem sign_extend_spec (a : Nat) (ha : AddrSize a) (x : Nat) :
+    signExtend x (maskOf a) = smod (8 * a) (x : Int) := by
+  rw [signExtend_mask a ha, sval_eq_smod]
+
+/-! ## (2) decoding -/
+
+/-- **`decode_matches_table`.** For every byte string, byte order and encoding,
+`Operation::parse` is the table-driven Spec decode: opcode ↦ operand kinds (`OpTable.signature`, the
+256-row table), operands laid out per kind (`readOperands`: sizes from the encoding, v2
+`DW_OP_implicit_pointer` address sized, `DW_OP_piece` in bits or `InvalidPiece`), then the operation
+the opcode denotes (`meaning`). Same value, same bytes consumed, same error. -/
+theorem decode_matches_table (e : Endian) (enc : Encoding) (bs : Bytes) :
+    Op.parse e enc bs = Spec.OpTable.decode e enc bs :=
+  parse_eq_decode e enc bs
+
+/-- the operand signature of an opcode is what the table says, e.g. the rows the unit tests of
+`op.rs` never reach together -/
+example : Spec.OpTable.signature 0xa4 = some [.uleb, .block1] ∧ Spec.OpTable.signature 0x92 = some [.reg, .sleb] ∧
+    Spec.OpTable.signature 0xf1 = none := by decide
+
+/-- **(7) `decode_total`.** Decoding any byte string returns a value or a gimli error: never a
+panic, never fuel exhaustion. -/
+theorem decode_total (e : Endian) (enc : Encoding) (bs : Bytes) : (Op.parse e enc bs).Normal :=
+  parse_normal e enc bs
+
+/-! ## (3) branches -/
+
+/-- **`branch_in_bounds`.** `compute_pc` with a 16-bit target: the new pc is `bytecode[t..]` for the
+mathematical target `t = (offset of the following operation) + target` when `0 ≤ t ≤ len`, and
+`BadBranchTarget` otherwise (the wrapping `usize` addition can not smuggle a negative target in).
+`hpc`/`hlen`: the pc is inside the expression, which is shorter than `2^63` bytes. -/
+theorem branch_in_bounds (pc bc : Bytes) (target : Int) (ht : -2 ^ 15 ≤ target ∧ target < 2 ^ 15)
+    (hlen : bc.length < 2 ^ 63) (hpc : pc.length ≤ bc.length) :
+    computePc pc bc target =
+      (let t : Int := ((bc.length - pc.length : Nat) : Int) + target
+       if 0 ≤ t ∧ t ≤ bc.length then .ok (bc.drop t.toNat) else .err .rBadBranchTarget) :=
+  computePc_spec pc bc target ht hlen hpc
+
+/-- in particular whatever `compute_pc` returns is a suffix of the bytecode at an offset in `[0, len]` -/
+theorem branch_target_suffix (pc bc pc' : Bytes) (target : Int) (h : computePc pc bc target = .ok pc') :
+    ∃ k, k ≤ bc.length ∧ pc' = bc.drop k := by
+  unfold computePc at h
+  simp only [] at h
+  split at h
+  · cases h
+  · next hle => cases h; exact ⟨_, Nat.le_of_not_gt hle, rfl⟩
+
+/-! ## (4) iteration limit -/
+
+/-- **`iter_limit`** (bound). With `max_iterations = m` (`m + 1 < 2^32`, see
+`iter_limit_u32_max_partial`), from any state whose counter is within the limit, any call that
+returns (`Complete` or a `Requires*`) leaves the counter within the limit, never decreases it, and
+has decoded at most two operations per iteration (one `evaluate_one_operation` per iteration plus
+at most one extra decode after a location-completing operation). The counter is part of the state,
+so the bound is on the total over `evaluate()` and every later `resume_with_*`. -/
+theorem iter_limit (m : Nat) (hm : m + 1 < 2 ^ 32) (fuel : Nat) (s : Eval) (r : Request) (s' : Eval)
+    (hmax : s.cfg.maxIterations = some m) (hit : s.iteration ≤ m)
+    (h : evaluateInternal fuel s = .ok (r, s')) :
+    s'.cfg = s.cfg ∧ s.iteration ≤ s'.iteration ∧ s'.iteration ≤ m ∧
+      s'.decodes - s.decodes ≤ 2 * (s'.iteration - s.iteration) := by
+  obtain ⟨h1, h2, h3, h4⟩ := evalInternal_bound m hm fuel s r s' hmax hit h
+  exact ⟨h1, h2, h3, by omega⟩
+
+/-- **`iter_limit`** (no looping). With the limit set, `m + 2` iterations of fuel counted from the
+current counter always suffice: the call returns a result or an error (`TooManyIterations` when
+the program needs more), never runs on and never panics. -/
+theorem iter_limit_terminates (m : Nat) (hm : m + 1 < 2 ^ 32) (fuel : Nat) (s : Eval)
+    (hmax : s.cfg.maxIterations = some m) (hit : s.iteration ≤ m) (hf : m + 2 ≤ fuel + s.iteration) :
+    (evaluateInternal fuel s).Normal :=
+  evalInternal_terminates m hm fuel s hmax hit hf
+
+/-- a looping program: the limit error, not a hang (`DW_OP_skip -3` forever, limit 5) -/
+example :
+    (Eval.new .little ⟨4, .dwarf32, 4⟩ {} .debug [0x2f, 0xfd, 0xff] none none (some 5)).bind
+      (fun s => (evaluate 7 s).1.map (·.1)) = .err .rTooManyIterations := by decide
+
+/-! ## (6) storage capacity -/
+
+/-- **`stack_capacity`** (local). `push` on a fixed-capacity stack is `StackFull` exactly when the
+stack already holds `n` values; otherwise it pushes. -/
+theorem stack_full_iff (c : Config) (v : Value) (m : Mach) :
+    push c v m = .err .rStackFull ↔ ∃ n, c.caps.stack = some n ∧ n ≤ m.stack.length :=
+  push_full_iff c v m
+
+/-- **`stack_capacity`** (global). Running with fixed capacities (value stack, expression stack,
+result pieces) gives exactly what the heap-backed evaluator gives on the same state — same request,
+same machine, same counters — or `StackFull`; capacities change nothing else. -/
+theorem stack_capacity (fuel : Nat) (s : Eval) :
+    (evaluateInternal fuel s).map heapRes = .err .rStackFull ∨
+      (evaluateInternal fuel s).map heapRes = (evaluateInternal fuel (heapState s)).map heapRes :=
+  evaluateInternal_cap fuel s
+
+/-- four pushes into `[Value; 3]` -/
+example :
+    (Eval.new .little ⟨4, .dwarf32, 4⟩ { stack := some 3 } .debug [0x30, 0x31, 0x32, 0x33] none none none).bind
+      (fun s => (evaluate 9 s).1.map (·.1)) = .err .rStackFull := by decide
 
 end Gimli.Props.C07
